@@ -220,6 +220,7 @@ pub fn par_sweep<F: Fn(u64) -> bool + Sync>(limit: u64, stride: u64, off: u64, c
     let nthreads = std::thread::available_parallelism().map(|n| n.get()).unwrap_or(4).min(16) as u64;
     let total = if off < limit { (limit - off + stride - 1) / stride } else { 0 };
     let mut sel: Vec<u64> = Vec::new();
+    crate::guard::IN_CALL.store(true, std::sync::atomic::Ordering::Relaxed);
     std::thread::scope(|sc| {
         let mut hs = Vec::new();
         for t in 0..nthreads {
@@ -245,6 +246,7 @@ pub fn par_sweep<F: Fn(u64) -> bool + Sync>(limit: u64, stride: u64, off: u64, c
             sel.extend(h.join().unwrap_or_default());
         }
     });
+    crate::guard::IN_CALL.store(false, std::sync::atomic::Ordering::Relaxed);
     sel.sort();
     sel.truncate(cap);
     (total, sel)
